@@ -267,6 +267,9 @@ pub fn operation(rng: &mut Rng, cfg: &GenCfg, branch_targets: &[u64]) -> il::Ope
         let t = if !branch_targets.is_empty() && rng.below(100) >= cfg.unknown_target_pct { *rng.pick(branch_targets) } else { 0xdead_0000 + rng.below(16) };
         // the target is an expression: a 64-bit constant, a narrower constant (addresses are unsigned: a 32-bit
         // target with the top bit set is not sign-extended), or computed from scalars
+        if t >= (1 << 31) && t < (1 << 32) && rng.bool() {
+            return il::Operation::branch(il::expr_const(t, 32));
+        }
         return match rng.below(6) {
             0 | 1 | 2 => il::Operation::branch(il::expr_const(t, 64)),
             3 if t < (1 << 32) => il::Operation::branch(il::expr_const(t, 32)),
@@ -354,7 +357,14 @@ pub fn function(rng: &mut Rng, cfg: &GenCfg, address: u64) -> il::Function {
         let blk = g.new_block().unwrap();
         for _ in 0..counts[b] {
             match operation(rng, cfg, &targets) {
-                il::Operation::Assign { dst, src } => blk.assign(dst, src),
+                il::Operation::Assign { dst, src } => {
+                    // now and then a value that is overwritten at once (a dead store, as lifted flag computations are)
+                    if rng.chance(1, 6) {
+                        blk.assign(dst.clone(), konst(rng, cfg, dst.bits()));
+                        blk.instructions_mut().last_mut().unwrap().set_address(Some(next_addr));
+                    }
+                    blk.assign(dst, src)
+                }
                 il::Operation::Store { index, src } => blk.store(index, src),
                 il::Operation::Load { dst, index } => blk.load(dst, index),
                 il::Operation::Branch { target } => blk.branch(target),
@@ -444,6 +454,12 @@ pub fn structured_function(rng: &mut Rng, cfg: &GenCfg, address: u64) -> il::Fun
                 let c = il::expr_const(rng.below(4), dst.bits());
                 arm_defs.push(dst.clone());
                 il::Operation::assign(dst, c)
+            } else if cfg.allow_branch && joins.contains(&b) && k + 1 == n && !arm_defs.is_empty() && rng.chance(1, 2) {
+                // the join consumes a scalar the arms defined as the target of an indirect branch (a jump table /
+                // computed return): its only use outside the arms
+                let x = rng.pick(&arm_defs).clone();
+                let t = if x.bits() < 64 { E::add(E::zext(64, E::Scalar(x)).unwrap(), il::expr_const(address, 64)).unwrap() } else { E::Scalar(x) };
+                il::Operation::branch(t)
             } else if joins.contains(&b) && k == 0 && !arm_defs.is_empty() && rng.chance(2, 3) {
                 // the join computes from a scalar an arm defined: y = x + 1
                 let x = rng.pick(&arm_defs).clone();
@@ -494,7 +510,7 @@ pub fn any_function(rng: &mut Rng, cfg: &GenCfg, address: u64) -> il::Function {
     let mut f = if rng.chance(1, 3) { structured_function(rng, cfg, address) } else { function(rng, cfg, address) };
     // instruction indices need not be the positions in the block: in a third of the functions an instruction is
     // removed here and there (never the last one of a block)
-    if rng.chance(1, 3) {
+    if rng.chance(1, 2) {
         let ids: Vec<usize> = f.blocks().iter().map(|b| b.index()).collect();
         for b in ids {
             if rng.chance(1, 2) {
